@@ -33,6 +33,15 @@ CHECKS = {
              "class are compared. About 10% of programs carry one injected fault to exercise the error class.",
         note="the reference interpreter is mine (documented semantics, calibrated on the repaired tree: 0 disagreements over >50k programs); constructs it does not model are not generated (listed in evidence)",
         design="4/C03"),
+    "C04": dict(
+        engine="hypothesis-runner",
+        category="exploration",
+        technique="differential property testing: generated scope-layout-varying programs evaluated with the per-node lookup cache enabled and (via a guarded hook) disabled",
+        text="Programs that re-evaluate the same identifier nodes under different scope layouts (eval-injected locals, conditional declarations, "
+             "recursion, one lambda through four call forms, global/local flips, per-iteration declarations) must behave identically with the lookup "
+             "cache on and off; the number of fast-path hits is measured to show the cache was exercised.",
+        note="trusts the hook: with lookup_cache_off every lookup takes the by-name search; a defect common to both paths is left to C03 and to the generator-known expectations",
+        design="4/C04"),
     "C05": dict(
         engine="rapidcheck+enumerator",
         category="exploration",
